@@ -301,6 +301,27 @@ class Sim(Layout):
                 if vals[1] in vals[0].attrs:
                     return vals[0].attrs[vals[1]]
                 return self._class_const(vals[0], vals[1], Sym("attr", vals[0].name, vals[1]) if len(vals) == 2 else vals[2])
+        # a local name bound to a method of the simulated object (getter = self.get_x_at; getter(stage, k)): the method's hook, or its code
+        if isinstance(f, ast.Name) and isinstance(env.get(f.id), Sym) and env[f.id].op == "attr" and len(env[f.id].args) == 2 and env[f.id].args[0] == "self":
+            mname = env[f.id].args[1]
+            hk = self.hooks.get("." + mname)
+            if hk is not None:
+                args, kwargs = self._call_args(n, env, fi)
+                r = hk(self, self.self_obj_for(env, fi), args, kwargs, n)
+                if r is not NotImplemented:
+                    return r
+            elif getattr(self, "self_class", None):
+                g = self.prog.resolve(self.self_class, mname)
+                me = self.self_obj_for(env, fi)
+                if g is not None and me is not None and self.depth < 10:
+                    args, kwargs = self._call_args(n, env, fi)
+                    return self.call_function(g, [me] + args, kwargs)
+        if isinstance(f, ast.Name) and f.id == "map" and len(n.args) == 2 and "map" not in env:
+            fn = self.ev(n.args[0], env, fi)
+            seq = self.ev(n.args[1], env, fi)
+            seq = list(seq) if isinstance(seq, (list, tuple, range)) else self.iterable(seq, n)
+            if isinstance(fn, Closure):
+                return [self.call_closure(fn, [x], {}) for x in seq]
         # a local name bound to a symbolic callable (sampler = self._grid_control; sampler(...))
         if isinstance(f, ast.Name) and f.id in env and isinstance(env[f.id], Sym) and "*callable" in self.hooks:
             args = [self.ev(a, env, fi) for a in n.args if not isinstance(a, ast.Starred)]
@@ -496,6 +517,14 @@ class Sim(Layout):
         pairs = self._e_ListComp(ast.ListComp(elt=ast.Tuple(elts=[n.key, n.value], ctx=ast.Load()), generators=n.generators), env, fi)
         return {freeze(k): v for k, v in pairs}
 
+    def self_obj_for(self, env, fi):
+        """the object bound to the first parameter of the method being simulated (closures see it through their defining scope)"""
+        for nm in ([fi.params[0]] if fi is not None and getattr(fi, "params", None) else []) + ["self"]:
+            v = env.get(nm)
+            if isinstance(v, Obj):
+                return v
+        return None
+
     def _e_GeneratorExp(self, n, env, fi):
         return self._e_ListComp(n, env, fi)
 
@@ -530,11 +559,34 @@ class Sim(Layout):
             for k in self.prog.mro(self.self_class):
                 for st in k.node.body:
                     if isinstance(st, ast.Assign) and any(isinstance(t, ast.Name) and t.id == attr for t in st.targets):
-                        try:
-                            return ast.literal_eval(st.value)
-                        except (ValueError, SyntaxError):
-                            return default
+                        v = self._const_expr(st.value, k)
+                        return default if v is NotImplemented else v
         return default
+
+    def _const_expr(self, node, cls, depth=0):
+        """value of a class-level constant expression: literals, tuples / lists of them, `+` of such, names of other class-level constants"""
+        if depth > 6:
+            return NotImplemented
+        try:
+            return ast.literal_eval(node)
+        except (ValueError, SyntaxError):
+            pass
+        if isinstance(node, (ast.Tuple, ast.List)):
+            vals = [self._const_expr(e, cls, depth + 1) for e in node.elts]
+            if any(v is NotImplemented for v in vals):
+                return NotImplemented
+            return tuple(vals) if isinstance(node, ast.Tuple) else vals
+        if isinstance(node, ast.BinOp) and isinstance(node.op, ast.Add):
+            a, b = self._const_expr(node.left, cls, depth + 1), self._const_expr(node.right, cls, depth + 1)
+            if a is NotImplemented or b is NotImplemented or type(a) is not type(b):
+                return NotImplemented
+            return a + b
+        if isinstance(node, ast.Name):
+            for k in self.prog.mro(cls.name):
+                for st in k.node.body:
+                    if isinstance(st, ast.Assign) and any(isinstance(t, ast.Name) and t.id == node.id for t in st.targets):
+                        return self._const_expr(st.value, k, depth + 1)
+        return NotImplemented
 
     def _e_Subscript(self, n, env, fi):
         o = self.ev(n.value, env, fi)
